@@ -711,10 +711,17 @@ impl NetWorld {
     /// node i dies: its outbound links close (peers see EOF on those connections), its inbound
     /// connections die with it, and links of peers towards it break
     pub fn kill_node(&mut self, i: usize) -> Result<(), String> {
+        self.kill_node_noticed(i, false)
+    }
+
+    /// the node dies; its peers notice the broken connections one after the other, in link order
+    /// or (reverse = true) in the opposite order
+    pub fn kill_node_noticed(&mut self, i: usize, reverse: bool) -> Result<(), String> {
         self.nodes[i].alive = false;
         self.nodes[i].repl_q.clear();
         self.nodes[i].sup_q.clear();
-        for li in 0..self.links.len() {
+        let order: Vec<usize> = if reverse { (0..self.links.len()).rev().collect() } else { (0..self.links.len()).collect() };
+        for li in order {
             if !self.links[li].open {
                 continue;
             }
